@@ -3861,6 +3861,18 @@ def is_filter_pushdown_available(expr, parent, dependents, allow_reduction=True)
                 and any(x._name == expr._name for x in e.walk())
             ):
                 return False
+        # Likewise a row-aligned term that is not computed from expr lines up
+        # with the rows that expr returns, not with the rows of its input
+        stack = [parent.predicate]
+        while stack:
+            e = stack.pop()
+            if e._name == expr._name:
+                continue
+            if not any(x._name == expr._name for x in e.walk()):
+                if e.ndim == 0:
+                    continue
+                return False
+            stack.extend(e.dependencies())
     parents = [x() for x in dependents[expr._name] if x() is not None]
     filters = {e._name for e in parents if isinstance(e, Filter)}
     if len(filters) != 1:
